@@ -263,6 +263,7 @@ MUTANTS += [
     ("revert_run_for_slow", "C15", "REVERT", "longer than a second", ""),
     ("revert_gibbs_limits", "C09", "REVERT", "no longer cancel each other", ""),
     ("revert_ensemble_int_start", "C03", "REVERT", "converts integer starting positions", ""),
+    ("revert_run_for_coarse_clock", "C15", "REVERT", "clock has not moved between two readings", ""),
 ]
 
 # the last one is behaviour-preserving (serial request/response): the check must NOT alarm
